@@ -26,12 +26,8 @@ func checkC12(e *Env) {
 		gate.CallOK("T.head", "(*cbor.Decoder).decodeTypedUint", "param:d"),
 		gate.Cmp("T.type", "call:(*cbor.Decoder).decodeTypedUint(param:d)#0", token.EQL, "param:expected"))
 	e.requireResult("RESULT", dot, gate.Outcome{Kind: gate.ErrNil, Idx: 1}, 0, "call:(*cbor.Decoder).decodeTypedUint(param:d)#1", "the decoded argument")
-	dbt := e.fn("internal/cbor.(*Decoder).decodeBytesOfType")
 	bo := gate.Outcome{Kind: gate.ErrNil, Idx: 1}
-	e.requireGates("GATE", dbt, bo, noCfg,
-		gate.CallOK("B.head", "(*cbor.Decoder).decodeOfType", "param:d", "param:expected"),
-		gate.CallOK("B.copy", "io.CopyN", "alloc:bytes.Buffer", "param:d.r", "conv(call:(*cbor.Decoder).decodeOfType(param:d,param:expected)#0)"))
-	e.requireResult("RESULT", dbt, bo, 0, "call:(*bytes.Buffer).Bytes(alloc:bytes.Buffer)", "exactly the bytes copied")
+	stringsAreExact(e)
 	dts := e.fn("internal/cbor.(*Decoder).DecodeTextString")
 	e.requireGates("GATE", dts, bo, noCfg,
 		gate.CallOK("S.bytes", "(*cbor.Decoder).decodeBytesOfType", "param:d", "const:96"),
@@ -53,4 +49,16 @@ func checkC12(e *Env) {
 	e.R.Floor("GATE", 10)
 	e.R.Floor("U1", 1)
 	e.R.Floor("U4", 1)
+}
+
+// stringsAreExact (shared by C12 and C05): a byte/text string is returned
+// only after exactly its declared number of bytes was copied (io.CopyN with
+// the error honoured), never a shorter prefix.
+func stringsAreExact(e *Env) {
+	dbt := e.fn("internal/cbor.(*Decoder).decodeBytesOfType")
+	bo := gate.Outcome{Kind: gate.ErrNil, Idx: 1}
+	e.requireGates("GATE", dbt, bo, noCfg,
+		gate.CallOK("B.head", "(*cbor.Decoder).decodeOfType", "param:d", "param:expected"),
+		gate.CallOK("B.copy", "io.CopyN", "alloc:bytes.Buffer", "param:d.r", "conv(call:(*cbor.Decoder).decodeOfType(param:d,param:expected)#0)"))
+	e.requireResult("RESULT", dbt, bo, 0, "call:(*bytes.Buffer).Bytes(alloc:bytes.Buffer)", "exactly the bytes copied")
 }
